@@ -8,6 +8,8 @@ CONSTANTS
   Lifecycle = "separate"
   SecondCheck = TRUE
   Filter = TRUE
+  EndKinds = {"cancel", "deadline", "parent"}
+  Honoured = {"cancel", "deadline", "parent"}
   MaxFail = 1
   GiveBack = FALSE
 INVARIANTS TypeOK AtMostOnce NoStaleInvoke OnlyAllocated SeqnoUnique QueueBound HandlersConsistent FilterConsistent NoLoss ExitedIdle InvokedOnlyRegistered
